@@ -51,6 +51,11 @@ func (r *run) outerLock(t int, st Step) func() {
 				return
 			}
 			r.mu.Lock()
+			// bring the model clock up to now before this return is logged: an RLock behind a writer that
+			// waits for the grace period returns (granted, or with its context's error from the handler)
+			// only after the handler answered that writer, i.e. after the grace period — and this goroutine
+			// may log its return before the writer's goroutine has logged the ticks and its own return
+			r.logTicks(r.elapsed())
 			if err != nil {
 				th.ph = phIdle
 				v := 2
